@@ -269,21 +269,13 @@ func loadSubject(root string, w *worldFile, k int, seed uint64, quick bool) (*su
 // enumOptsFor: the first subjects of a run get the full enumeration (every truncation
 // length, every structural bit); later ones a deterministic sub-sample.
 func enumOptsFor(k int, quick bool) enumOpts {
-	full := enumOpts{truncEvery: 1, flipStruct: 1, flipElse: 1, splices: 600, swaps: 150, idxPerTable: 8, metaFlip: 1}
 	if quick {
-		switch k {
-		case 0:
-			return enumOpts{truncEvery: 1, flipStruct: 2, flipElse: 1, splices: 300, swaps: 80, idxPerTable: 6, metaFlip: 3}
-		case 1:
-			return enumOpts{truncEvery: 1, flipStruct: 3, flipElse: 2, splices: 300, swaps: 80, idxPerTable: 6, metaFlip: 5}
-		default:
-			return enumOpts{truncEvery: 3, flipStruct: 3, flipElse: 2, splices: 200, swaps: 60, idxPerTable: 4, metaFlip: 5}
+		if k == 0 { // every truncation length
+			return enumOpts{truncEvery: 1, flipStruct: 24, flipElse: 12, splices: 60, swaps: 10, idxPerTable: 1, metaFlip: 64, metaTrunc: 8, light: true, lenEvery: 1}
 		}
+		return enumOpts{truncEvery: 16, flipStruct: 48, flipElse: 16, splices: 40, swaps: 8, idxPerTable: 1, metaFlip: 64, metaTrunc: 12, light: true, lenEvery: 2}
 	}
-	if k < 6 {
-		return full
-	}
-	return enumOpts{truncEvery: 1, flipStruct: 2, flipElse: 1, splices: 300, swaps: 80, idxPerTable: 6, metaFlip: 3}
+	return enumOpts{truncEvery: 1, flipStruct: 1, flipElse: 1, splices: 600, swaps: 150, idxPerTable: 8, metaFlip: 1, metaTrunc: 1, lenEvery: 1}
 }
 
 func describe(m *mutation, orig []byte) map[string]any {
